@@ -13,7 +13,9 @@
 
   The model follows the code after the repairs 5d49b05d8 (`drop_not_completed` matches the
   record name exactly), fce82c149 (it refuses a read-only store) and 0dec94369 (a rewritten
-  not-completed record is listed once).
+  not-completed record is listed once).  `Cfg` selects between the code as it is and the
+  proposed repair fixes/C13-readonly-creates-directories.patch (a read-only store creates no
+  directory); the harness detects by behaviour which one the tree under test follows.
 -/
 import CogentModel.Model.KV
 namespace CogentModel.DataStore
@@ -161,6 +163,19 @@ inductive Res
 inductive Sub | root | nc | logs
   deriving Repr, DecidableEq
 
+structure Cfg where
+  /-- the constructor creates the sub-directories only for the writable modes (repair); the code
+      as it is tests `mode is READONLY` on the raw argument, which is never true for `mode="r"` -/
+  roOpenNoMkdir : Bool
+  /-- `write_not_completed` / `write_log` create their directory only on a writable store (repair);
+      the code as it is runs `mkdir` before the mode check raises -/
+  roWriteNoMkdir : Bool
+  deriving Repr, DecidableEq
+
+/-- the tree as it is -/
+def Cfg.asIs : Cfg := { roOpenNoMkdir := false, roWriteNoMkdir := false }
+def Cfg.repaired : Cfg := { roOpenNoMkdir := true, roWriteNoMkdir := true }
+
 structure Dir (D : Type) where
   mode : Mode
   sfx : Str
@@ -169,6 +184,8 @@ structure Dir (D : Type) where
   /-- `source/not_completed` exists -/
   ncDir : Bool
   nc : KV D
+  /-- `source/logs` exists -/
+  logsDir : Bool
   logs : KV D
   md5 : KV D
   /-- `_completed` (member ids = file names) -/
@@ -180,14 +197,15 @@ variable {D : Type}
 
 /-- `DataStoreDirectory(new_dir, mode=w|a, suffix=sfx)` -/
 def Dir.create (mode : Mode) (sfx : Str) : Dir D :=
-  { mode, sfx, root := [], ncDir := true, nc := [], logs := [], md5 := [], cCache := [], ncCache := [] }
+  { mode, sfx, root := [], ncDir := true, nc := [], logsDir := true, logs := [], md5 := [], cCache := [], ncCache := [] }
 
 /-- a new store object on the same directory, the mode given as a string (`mode="r"`), as the
     harness does.  `_source_check_create` compares the *raw* argument with the enum member
-    (`mode is READONLY`), which is never true for a string, so the three sub-directories are
-    (re)created for every mode, read-only included. -/
-def reopen (s : Dir D) (mode : Mode) : Dir D :=
-  { s with mode := mode, cCache := [], ncCache := [], ncDir := true }
+    (`mode is READONLY`), which is never true for a string, so (code as it is) the sub-directories
+    are (re)created for every mode, read-only included. -/
+def reopen (cfg : Cfg) (s : Dir D) (mode : Mode) : Dir D :=
+  let mk := !(cfg.roOpenNoMkdir && mode == .r)
+  { s with mode := mode, cCache := [], ncCache := [], ncDir := s.ncDir || mk, logsDir := s.logsDir || mk }
 
 def globC (s : Dir D) : List Str := (keys s.root).filter (fun n => endsWith n ('.' :: s.sfx))
 def globNc (s : Dir D) : List Str :=
@@ -213,10 +231,32 @@ def writeFile (s : Dir D) (sub : Sub) (name : Str) (data : D) : Dir D :=
   | .nc => { s with nc := put s.nc name data }
   | .logs => { s with logs := put s.logs name data }
 
+def sNotCompleted : Str := ['n','o','t','_','c','o','m','p','l','e','t','e','d']
+def sMd5 : Str := ['m','d','5']
+
+/-- `open(source / subdir / name, "w")` for a name with a directory part.  Only
+    `write(unique_id="logs/x.<suffix>")` (resp. `not_completed/…`, `md5/…`) names an existing
+    directory: the record lands there as a stray file.  Returns `none` when the directory does not
+    exist (`FileNotFoundError`, nothing written). -/
+def strayWrite (s : Dir D) (sub : Sub) (file : Str) (data : D) : Option (Dir D) :=
+  if sub != .root then none else
+  let dir := file.takeWhile (· != '/')
+  let rest := (file.dropWhile (· != '/')).drop 1
+  if rest.contains '/' || rest.isEmpty then none
+  else if dir == sLogs && s.logsDir then some { s with logs := put s.logs rest data }
+  else if dir == sNotCompleted && s.ncDir then some { s with nc := put s.nc rest data }
+  else if dir == sMd5 then some { s with md5 := put s.md5 rest data }
+  else none
+
 /-- `_write` after the mode / existence checks -/
 def writeBody (H : D → D) (s : Dir D) (sub : Sub) (n : Names) (data : D) : Dir D × Res :=
-  -- a file name with a directory part: `open` fails, that sub-directory does not exist
-  if n.file.contains '/' then (s, .err .fileNotFound) else
+  -- a file name with a directory part: either `open` fails (no such directory), or the record is
+  -- written into an existing sub-directory and the md5 file (`md5/<dir>/…`) cannot be created
+  if n.file.contains '/' then
+    match strayWrite s sub n.file data with
+    | some s1 => (s1, .err .fileNotFound)
+    | none => (s, .err .fileNotFound)
+  else
   let s1 := writeFile s sub n.file data
   if sub = .logs then (s1, .done none)
   else ({ s1 with md5 := put s1.md5 n.md5 (H data) }, .done (some n.file))
@@ -268,17 +308,19 @@ def write (H : D → D) (s : Dir D) (uid : Str) (data : D) : Dir D × Res :=
       | some f => ({ s2 with cCache := s2.cCache ++ [f] }, .done (some f))
       | none => (s2, .done none)
 
-/-- `write_not_completed(unique_id, data)` (the `mkdir` precedes every check) -/
-def writeNc (H : D → D) (s : Dir D) (uid : Str) (data : D) : Dir D × Res :=
-  match writeCore H { s with ncDir := true } .nc uid sJson data with
+/-- `write_not_completed(unique_id, data)`; code as it is: the `mkdir` precedes every check -/
+def writeNc (cfg : Cfg) (H : D → D) (s : Dir D) (uid : Str) (data : D) : Dir D × Res :=
+  let s0 := if cfg.roWriteNoMkdir && s.mode = .r then s else { s with ncDir := true }
+  match writeCore H s0 .nc uid sJson data with
   | (s1, .done (some f)) =>
     -- a record that is rewritten is already listed
     (if s1.ncCache.contains f then s1 else { s1 with ncCache := s1.ncCache ++ [f] }, .done (some (ncPrefix ++ f)))
   | r => r
 
-/-- `write_log(unique_id, data)` -/
-def writeLog (H : D → D) (s : Dir D) (uid : Str) (data : D) : Dir D × Res :=
-  writeCore H s .logs uid sLog data
+/-- `write_log(unique_id, data)`; code as it is: the `mkdir` precedes every check -/
+def writeLog (cfg : Cfg) (H : D → D) (s : Dir D) (uid : Str) (data : D) : Dir D × Res :=
+  let s0 := if cfg.roWriteNoMkdir && s.mode = .r then s else { s with logsDir := true }
+  writeCore H s0 .logs uid sLog data
 
 /-- operations of a history -/
 inductive Op (D : Type)
@@ -290,18 +332,18 @@ inductive Op (D : Type)
   | observe                   -- reading `completed` / `not_completed` (fills empty caches)
   | unlock                    -- SQLite store only (`unlock()`); nothing on a directory store
 
-def step (H : D → D) (s : Dir D) : Op D → Dir D × Res
+def step (cfg : Cfg) (H : D → D) (s : Dir D) : Op D → Dir D × Res
   | .write uid d => write H s uid d
-  | .writeNc uid d => writeNc H s uid d
-  | .writeLog uid d => writeLog H s uid d
+  | .writeNc uid d => writeNc cfg H s uid d
+  | .writeLog uid d => writeLog cfg H s uid d
   | .drop uid => dropNc s uid
-  | .reopen m => (reopen s m, .done none)
+  | .reopen m => (reopen cfg s m, .done none)
   | .observe => (populate s, .done none)
   | .unlock => (s, .done none)
 
-def run (H : D → D) (s : Dir D) : List (Op D) → Dir D
+def run (cfg : Cfg) (H : D → D) (s : Dir D) : List (Op D) → Dir D
   | [] => s
-  | op :: ops => run H (step H s op).1 ops
+  | op :: ops => run cfg H (step cfg H s op).1 ops
 
 /-- what the property observes of one member: id, `read()`, `md5` (`none` = missing) -/
 structure MObs (D : Type) where
@@ -315,5 +357,8 @@ def obsCompleted (s : Dir D) : List (MObs D) :=
 
 def obsNotCompleted (s : Dir D) : List (MObs D) :=
   s.ncCache.map fun n => ⟨ncPrefix ++ n, get s.nc n, get s.md5 (md5Lookup s.sfx n)⟩
+
+/-- `[(m.unique_id, m.read()) for m in ds.logs]`: empty when `source/logs` does not exist -/
+def obsLogs (s : Dir D) : KV D := if s.logsDir then s.logs else []
 
 end CogentModel.DataStore
